@@ -372,7 +372,8 @@ impl<'a> MachineAfterRegWrite<'a> {
                 if machine.state != State::ErrorStopped {
                     machine.state = State::Stopped;
                 }
-            } else if machine.last_bus_read == 0b0010_1100 {
+            } else if machine.last_bus_read == 0b0010_1100 && machine.signals().mac3() {
+                // (only a first opcode byte is a RETI; 0x2C also occurs as second byte of CMP ((Rd+)), src)
                 // We need to clear some MISR flags once the program returns from interrupt
                 trace!("RETI detected. Removing MISR flags");
                 // TODO: I don't actually know when this needs setting. See #34
